@@ -25,6 +25,9 @@ type C13Scenario struct {
 	ConsumersFirst bool        `json:"consumers_first"`
 	HoldYields     int         `json:"hold_yields"`   // priq: yields between the signal and the Pop
 	CloseWaiters   int         `json:"close_waiters"` // pipe/mux, pipe/mq: goroutines blocked in WaitClose, which Close must release
+	// Burst > 0 (unbounded condition-variable queues): one more task adds Burst items and then pops while the queue holds
+	// any, next to the other consumers: the backing buffer grows and is drained completely while consumers are parked on it
+	Burst int `json:"burst"`
 }
 
 func drawC13(rt *rapid.T) interface{} {
@@ -82,6 +85,9 @@ func drawC13(rt *rapid.T) interface{} {
 	sc.HoldYields = rapid.IntRange(0, 2).Draw(rt, "hold")
 	if sc.Kind == KMux || sc.Kind == KMQ {
 		sc.CloseWaiters = rapid.IntRange(0, 2).Draw(rt, "closewaiters")
+	}
+	if sc.Cap == 0 && (sc.Kind == KSyncQ || sc.Kind == KQ || sc.Kind == KAsync || sc.Kind == KMux) && rapid.IntRange(0, 7).Draw(rt, "burst") == 0 {
+		sc.Burst = rapid.SampledFrom([]int{17, 33, 70, 1100, 1100}).Draw(rt, "burstn")
 	}
 	sc.Knobs = hx.DrawKnobs(rt, nil)
 	return sc
@@ -276,6 +282,43 @@ func runC13(t *testing.T, sci interface{}, keepLog bool) *hx.Outcome {
 			}
 		}
 		var prods []*simrt.Task
+		var bursterTask *simrt.Task
+		if sc.Burst > 0 {
+			s.Count("burst")
+			burster := simrt.GoNamed("burster", func() {
+				me := simrt.Cur()
+				for i := 0; i < sc.Burst; i++ {
+					v := 100000 + i
+					st.added[v] = true
+					me.EnterAPI("add")
+					code := st.q.Add(v)
+					me.ExitAPI()
+					if code == OK {
+						st.length++
+					}
+				}
+				s.Logf("burster added %d", sc.Burst)
+				for st.length > 0 && !st.closedOrClosing {
+					me.EnterAPI("Pop")
+					v, code := st.q.Pop()
+					me.ExitAPI()
+					if code != OK {
+						s.Logf("burster pop -> %s", code)
+						return
+					}
+					if !st.added[v] || st.popped[v] {
+						s.Fail("item-popped-twice", "burster got %d (added %v, popped before %v)", v, st.added[v], st.popped[v])
+						return
+					}
+					st.popped[v] = true
+					st.length--
+				}
+				s.Logf("burster drained")
+			})
+			// the burster is a consumer like the others (a blocked Pop beside a non-empty queue is a lost wake-up) ...
+			st.cons = append(st.cons, burster)
+			bursterTask = burster
+		}
 		for pi, ops := range sc.Producers {
 			pi, ops := pi, ops
 			tk := simrt.GoNamed(fmt.Sprintf("producer%d", pi), func() {
@@ -320,6 +363,10 @@ func runC13(t *testing.T, sci interface{}, keepLog bool) *hx.Outcome {
 			prods = append(prods, tk)
 		}
 		hx.WaitDone(s, prods...)
+		if bursterTask != nil {
+			// done, or parked in a Pop that a consumer emptied the queue under: the final Close releases it like the others
+			hx.WaitBlockedOrDone(s, bursterTask)
+		}
 		// release everybody: the final Close must let every consumer return
 		if sc.Kind == KPriQ {
 			hx.WaitBlockedOrDone(s, st.cons...)
@@ -337,7 +384,7 @@ func runC13(t *testing.T, sci interface{}, keepLog bool) *hx.Outcome {
 		hx.WaitDone(s, st.closeWaiters...)
 	}
 
-	res := hx.RunSim(t, sc.Knobs.Config(keepLog, 20000), setup, main)
+	res := hx.RunSim(t, sc.Knobs.Config(keepLog, 20000+150*sc.Burst), setup, main)
 	o := hx.FromResult(res)
 	if o.Class == "" && res.Stuck {
 		o.Class = "stuck"
